@@ -110,6 +110,7 @@ def applyWrite (fs : List (String × String)) (op : WriteOp) : List (String × S
 def applyWrites (fs : List (String × String)) (ops : List WriteOp) : List (String × String) := ops.foldl applyWrite fs
 
 structure GenResult where
+  log : List LogEntry
   stubs : List StubData
   outside : List String
   ops : List WriteOp
@@ -122,6 +123,6 @@ def runGenerator (api : API) (safe : Bool) (preexisting : List String := []) : E
   | .ok (stubs, st) =>
     match createStubFiles safe stubs st.outside preexisting with
     | .error e => .error e
-    | .ok ops => .ok { stubs := stubs, outside := st.outside, ops := ops }
+    | .ok ops => .ok { log := st.log, stubs := stubs, outside := st.outside, ops := ops }
 
 end StubGen
